@@ -83,7 +83,7 @@ def m1(cx):
     n = 0
     for im, tag in _shared_impls(cx):
         fn = cx.method(im, 'error')
-        g = cx.graph(fn['key'])
+        g = cx.graph(fn['key'], forward=True)
         label = cx.label(fn)
         errs = [x for x in g.nodes if down_method(x) == 'error']
         n += 1
